@@ -161,7 +161,7 @@ def gen_case(rng, ident, force=None):
     # user bindings named like the identifiers the macro uses itself (the eq!/ne! operand locals l0, l1, .. and the pattern
     # bindings m0, m1, .. of the compared positions): one case in three among those with an eq!/ne! operand
     if any(e[0] != 'P' for alt in alts for e in alt) and rng.chance(1, 3):
-        rename(c, rng.choice([{'x0': 'l0', 'x1': 'l1'}, {'x0': 'l1', 'x1': 'l0'}, {'x0': 'm1', 'x1': 'm0'}]))
+        rename(c, rng.choice([{'x0': 'l0', 'x1': 'l1'}, {'x0': 'l1', 'x1': 'l0'}, {'x0': 'm1', 'x1': 'm0'}, {'x0': 'a1', 'x1': 'a0'}, {'x0': 'a0', 'x1': 'a1'}]))
     return c
 
 def rename(c, ren):
@@ -309,7 +309,7 @@ def gen_cases(seed, n):
         cases.append(c); k += 1
     # bindings named like the macro's own identifiers next to an eq!/ne! operand
     for alts in ([[('P', Pat('l0', 'b0', [0])), ('EQ', 3)]], [[('P', Pat('m1', 'b0', [0])), ('EQ', 3)]], [[('NE', 2), ('P', Pat('l0', 'b1', [1]))]],
-                 [[('P', Pat('l0 @ 1..=3', 'a0(r1-3)', [0])), ('NE', 1)]], [[('EQ', 1), ('P', Pat('m0', 'b1', [1]))], [('P', Pat('l0', 'b0', [0])), ('EQ', 2)]]):
+                 [[('P', Pat('l0 @ 1..=3', 'a0(r1-3)', [0])), ('NE', 1)]], [[('P', Pat('a1', 'b0', [0])), ('EQ', 3)]], [[('NE', 0), ('P', Pat('a0', 'b1', [1]))]], [[('EQ', 1), ('P', Pat('m0', 'b1', [1]))], [('P', Pat('l0', 'b0', [0])), ('EQ', 2)]]):
         c = Case(); c.ident = f"k{k}"; c.types = 'nn'; c.method = 'm_nn'; c.guard = None; c.alts = alts
         cases.append(c); k += 1
     for k2 in range(n):
